@@ -161,9 +161,50 @@ def assigned_names(body):
     return names
 
 
+import re as _re
+
+
+def _depth(text):
+    d = 0
+    for mo in _re.finditer(r'\$(\d+)', text):
+        d = max(d, int(mo.group(1)))
+    return d
+
+
+def rename_atom(a, old, new):
+    """textual renaming of an index variable inside an atom name"""
+    b = _re.sub(r'(?<![A-Za-z0-9_$])%s(?![A-Za-z0-9_])' % _re.escape(old), new, a)
+    if b != a:
+        d = set(ATOM_DEPS.get(a, ()))
+        if old in d:
+            d.discard(old)
+            d.add(new)
+        ATOM_DEPS[b] = d
+        if a in pysym.INT_ATOMS:
+            pysym.INT_ATOMS.add(b)
+        if a in SUMS:
+            SUMS[b] = SUMS[a]
+    return b
+
+
+def rename_var(p, old, new):
+    out = {}
+    for m, c in p.t.items():
+        nm = tuple(sorted((rename_atom(a, old, new), e) for a, e in m))
+        out[nm] = out.get(nm, 0) + c
+    return P({m: c for m, c in out.items() if c})
+
+
 def make_sum(var, lo, hi, body, conds):
     """SUM_{lo <= var < hi, conds} body  as a linear combination of canonical sum atoms"""
     body = normal(body)
+    if conds:
+        canon = var
+    else:
+        canon = '$%d' % (1 + max([_depth(a) for a in body.atoms()] or [0]))
+        pysym.INT_ATOMS.add(canon)
+        body = rename_var(body, var, canon)
+        var = canon
     out = P({})
     # split every monomial into the part independent of var and the dependent part
     groups = {}
